@@ -1107,6 +1107,11 @@ def generic_rules(prop, index, rep):
     with rep.section(rid6):
         nd_ = shadowed_branch_rule(index, rep, rid6, mods)
         rep.ob(rid6, "src/dendropy", "%d keyword branches examined" % nd_, True, nontrivial=nd_ > 0)
+    rid7 = "R%s.O" % prop[1:]
+    rep.rule(rid7, "overrides keep their parent's refusals: a method that replaces an inherited implementation without delegating to it raises the same errors for the conditions the parent's opening guards refuse")
+    with rep.section(rid7):
+        no_ = override_guard_rule(index, rep, rid7, mods)
+        rep.ob(rid7, "src/dendropy", "%d overrides of guarded parent methods examined" % no_, True, nontrivial=no_ > 0)
     rid2 = "R%s.V" % prop[1:]
     rep.rule(rid2, "right variable in nested loops: an inner loop over a collection derived from the outer item uses its own item")
     with rep.section(rid2):
@@ -1216,4 +1221,48 @@ def structure_query_rule(index, rep, rid):
         rep.check(not rd, rid, f.qualname, "structure query reads the cached encoding: %s" % rd, fn_where(f), "%s reads no bipartition-encoding attribute" % f.qualname,
                   "%s%s reads `%s`: the bipartition encoding is a cache that is current only right after encode_bipartitions / update_bipartitions, and every restructuring call lets the caller skip the update - so after tips are pruned or added the size / iteration / statistic is answered from the tree as it WAS (N-bar divided by a stale leaf count, a traversal of leaves that are gone)"
                   % (f.qualname, "" if root is f else " (reached from %s)" % root.qualname, ", ".join(rd)))
+    return n
+
+
+def override_guard_rule(index, rep, rid, modules):
+    """An override that replaces its parent's implementation (does not delegate to it) keeps the parent's refusals:
+    every `if <test on a parameter>: raise E` that opens the parent's body has a counterpart raising E in the override."""
+    n = 0
+    for m in modules:
+        mod = index.module(m)
+        for ci in [c for c in index.classes.values() if c.module is mod]:
+            bases = [b for b in index.mro(ci) if b.qualname != ci.qualname]
+            for name, meth in ci.methods.items():
+                parent = None
+                for b in bases:
+                    if name in b.methods:
+                        parent = b.methods[name]
+                        break
+                if parent is None or name in ("__init__", "__deepcopy__", "__copy__"):
+                    continue
+                guards = []
+                derived = {p_ for p_ in parent.params if p_ != "self"}
+                for st in parent.node.body:
+                    if isinstance(st, ast.Expr) and isinstance(st.value, ast.Constant):
+                        continue
+                    if isinstance(st, ast.Assign) and isinstance(st.targets[0], ast.Name) and any(isinstance(x, ast.Name) and x.id in derived for x in ast.walk(st.value)):
+                        derived.add(st.targets[0].id)
+                    if isinstance(st, ast.If) and not st.orelse and st.body and isinstance(st.body[-1], ast.Raise) and st.body[-1].exc is not None and any(isinstance(x, ast.Name) and x.id in derived for x in ast.walk(st.test)):
+                        e = st.body[-1].exc
+                        guards.append((st, norm(e.func) if isinstance(e, ast.Call) else norm(e)))
+                        continue
+                    if isinstance(st, ast.Assign):
+                        continue
+                    break
+                if not guards:
+                    continue
+                delegates = any((isinstance(c.func, ast.Attribute) and c.func.attr == name and (norm(c.func.value).startswith("super(") or norm(c.func.value).split(".")[-1] in {b.name for b in bases})) for c in calls_in(meth.node, nested=True))
+                n += 1
+                if delegates:
+                    rep.ob(rid, fn_where(meth), "%s delegates to %s" % (meth.qualname, parent.qualname), True, nontrivial=False)
+                    continue
+                raised = {norm(r.exc.func) if isinstance(r.exc, ast.Call) else norm(r.exc) for r in ast.walk(meth.node) if isinstance(r, ast.Raise) and r.exc is not None}
+                for st, exc in guards:
+                    rep.check(exc in raised, rid, meth.qualname, "override drops the parent's refusal `%s`" % norm(st.test)[:50], fn_where(meth), "%s keeps the refusal %s of %s" % (meth.qualname, exc, parent.qualname),
+                              "%s replaces %s without calling it and no longer raises %s where the parent does (`if %s: raise ...`): what the base class refuses - a taxon that is not in the matrix's namespace - this subclass silently accepts, so objects of the subclass break the invariant every other class keeps" % (meth.qualname, parent.qualname, exc, norm(st.test)[:60]))
     return n
